@@ -6,8 +6,9 @@
  * codec token: snappy | lz4 | gzip | zstd
  * rope   ::= "-" | chunk ("," chunk)*      chunk ::= h<hex> | f<n>.<seed>.<start>
  *            (fill byte i (from 0) = ((i%251)*7 + (i/251)%256 + seed) % 256, as Lz.tla FillByte)
- * desc   ::= "-" | seg ("," seg)*          seg   ::= L<n>.<seed> | R<off>.<len>
- *            (L: n bytes of xorshift32 noise; R: len bytes copied from `off` back, overlapping)
+ * desc   ::= "-" | seg ("," seg)*          seg   ::= L<n>.<seed> | R<off>.<len> | C<n>.<m>
+ *            (L: n bytes of xorshift32 noise; R: len bytes copied from `off` back, overlapping;
+ *             C: n little-endian int64 values i % m)
  *
  *  <id> exp  <rope>                         -> <id> <len> <bytes>
  *  <id> expd <desc>                         -> <id> <len> <bytes>
@@ -131,6 +132,9 @@ static void expand_desc(const char* s, vec_t* v) {
                 if ((i & 3) == 0) { st ^= st << 13; st ^= st >> 17; st ^= st << 5; }
                 v->p[v->n++] = (uint8_t)(st >> (8 * (i & 3)));
             }
+        } else if (kind == 'C') {
+            v_need(v, 8 * a);
+            for (unsigned long i = 0; i < a; i++) { uint64_t val = b ? i % b : i; memcpy(v->p + v->n, &val, 8); v->n += 8; }
         } else if (kind == 'R') {
             if (a == 0 || a > v->n) { fprintf(stderr, "bad repeat offset %lu at %zu\n", a, v->n); exit(3); }
             v_need(v, b);
